@@ -3289,7 +3289,7 @@ class IPCone:
                 idx.remove(index)
                 right1 = right[idx]
 
-            u = model.dvar()
+            u = model.dvar(aux=True)
 
             b1 = IPCone(u, right1, beta1)
 
